@@ -14,14 +14,19 @@ from harness import engine_explore as ee
 
 
 def gen_user_case(rng, tier, cyclic=False):
-    spec = plans.gen_spec(rng, nmax=8 if tier == "quick" else 14, cyclic=cyclic)
+    hub = (not cyclic) and rng.random() < 0.3
+    spec = plans.gen_hub_spec(rng) if hub else plans.gen_spec(rng, nmax=8 if tier == "quick" else 14, cyclic=cyclic)
     ids = [nd["id"] for nd in spec["nodes"]]
     calls = [nd["id"] for nd in spec["nodes"] if nd["kind"] == "call"]
     k = rng.choice([0, 1, 2, 2, 3, 4])
     out = rng.sample(ids, min(k, len(ids))) if rng.random() < 0.9 else None
+    if hub:                                       # everything behind the junction is requested
+        sinks = [i for i in calls if not any(a == i for a, _ in spec["deps"])
+                 and not any(r.get("n") == i for nd in spec["nodes"] if nd["kind"] == "call" for r in nd["args"])]
+        out = sinks or ids
     nf = rng.choice([0, 0, 0, 1, 2]) if not cyclic else 0
     failing = {i: rng.choice(list(plans.EXC)) for i in rng.sample(calls, min(nf, len(calls)))}
-    return {"spec": spec, "output": out, "workers": rng.choice([1, 2, 3, len(ids) + 2]),
+    return {"spec": spec, "output": out, "workers": rng.choice([2, 3, len(ids) + 2] if hub else [1, 2, 3, len(ids) + 2]),
             "max_errors": rng.choice([0, 0, 1, None]), "scheduler": rng.choice(["default", "random"]),
             "failing": {str(k): v for k, v in failing.items()}}
 
